@@ -539,3 +539,38 @@ Lemma source_facts :
   src_list_sorted = true /\ src_list_key = KRefStart /\
   src_dict_register = KeepFirst /\ src_dict_order = (Desc, Asc).
 Proof. repeat split; reflexivity. Qed.
+
+(* ================================================================ the fuel of [load] always suffices *)
+Lemma step_count ans pend h h' es d c :
+  step ans pend h = Some (h', es, d, c) -> length pend = (c + length d)%nat.
+Proof.
+  intro Hs. destruct (step_spec _ _ _ _ _ _ _ Hs) as [xts [He [_ [Hp Hc]]]].
+  apply Permutation_length in Hp. rewrite app_length, map_length in Hp.
+  rewrite Hc, He, map_length. exact Hp.
+Qed.
+
+Lemma round_count ans ms : forall h h' ms' c,
+  round ans ms h = Some (h', ms', c) -> unresolved ms = (c + unresolved ms')%nat.
+Proof.
+  unfold unresolved. induction ms as [|[pend lst] r IH]; intros h h' ms' c Hr; cbn [round] in Hr.
+  - inversion Hr; subst. reflexivity.
+  - destruct (step ans pend h) as [[[[h1 es] d] c1]|] eqn:Es; [|discriminate].
+    destruct (round ans r h1) as [[[h2 r'] c2]|] eqn:Er; [|discriminate].
+    inversion Hr; subst. cbn [map fst concat]. rewrite !app_length.
+    apply step_count in Es. apply IH in Er. lia.
+Qed.
+
+Lemma loop_fuel ans fuel : forall ms h, (unresolved ms < fuel)%nat -> loop fuel ans ms h <> OutOfFuel.
+Proof.
+  induction fuel as [|f IH]; intros ms h Hlt; [lia|]. cbn [loop].
+  destruct (round ans ms h) as [[[h' ms'] c]|] eqn:Er; [|discriminate].
+  apply round_count in Er.
+  destruct (Nat.ltb 0 (unresolved ms') && Nat.ltb 0 c)%bool eqn:Eb.
+  - apply andb_true_iff in Eb as [_ Ec]. apply Nat.ltb_lt in Ec. apply IH. lia.
+  - destruct (Nat.ltb 0 (unresolved ms')); discriminate.
+Qed.
+
+Theorem load_terminates ans models : load ans models <> OutOfFuel.
+Proof.
+  unfold load. apply loop_fuel. unfold unresolved. rewrite map_map. cbn [fst]. rewrite map_id. lia.
+Qed.
